@@ -202,3 +202,91 @@ fn chosen_repair_should_not_cause_a_second_error() {
          reported at 'y'"
     );
 }
+
+// ---------------------------------------------------------------------------------------------
+// The same defect with the default (uniform, unit) costs.
+//
+//   S: 'p' 'q' Rest;  Rest: Ps 'z' | 'k'^90 'x' Ts 'z';  Ps: | Ps 'p' 'q';  Ts: | Ts 'p' 'q' 'x';
+//   input: (p q x)^90 z          error at the first 'x'
+//
+// Two repairs of minimum cost 90 exist:
+//   A. delete each of the 90 'x's (with two shifts between deletions): ends at lexeme 270
+//   B. insert 90 'k's in front of the first 'x'
+// With either of them the whole input is accepted, so both let parsing continue equally far and
+// both must be reported.
+fn run_unit(n: usize) -> (usize, Vec<String>) {
+    let grms = format!(
+        "%start S
+%%
+S: 'p' 'q' Rest;
+Rest: Ps 'z' | {} 'x' Ts 'z';
+Ps: | Ps 'p' 'q';
+Ts: | Ts 'p' 'q' 'x';
+",
+        "'k' ".repeat(n)
+    );
+    let grm = YaccGrammar::<u16>::new_with_storaget(
+        YaccKind::Original(YaccOriginalActionKind::NoAction),
+        &grms,
+    )
+    .unwrap();
+    let (_, stable) = from_yacc(&grm, Minimiser::Pager).unwrap();
+    assert!(stable.conflicts().is_none());
+    let input = format!("{}z", "pqx".repeat(n));
+    let lexemes = input
+        .char_indices()
+        .map(|(i, c)| {
+            let tidx = grm.token_idx(&c.to_string()).unwrap();
+            Lx::new(u16::try_from(u32::from(tidx)).unwrap(), i, 1)
+        })
+        .collect::<Vec<_>>();
+    let lexer = CharLexer { s: &input, lexemes };
+    // No term_costs(): every token costs 1.
+    let (_, errs) =
+        RTParserBuilder::<u16, LT>::new(&grm, &stable).parse_map(&lexer, &|_| (), &|_, _| ());
+    assert!(!errs.is_empty());
+    let LexParseError::ParseError(pe) = &errs[0] else { unreachable!() };
+    assert_eq!(pe.lexeme().span(), Span::new(2, 3));
+    let reported = pe
+        .repairs()
+        .iter()
+        .map(|r| {
+            let ins = r.iter().filter(|x| matches!(x, ParseRepair::Insert(_))).count();
+            let del = r.iter().filter(|x| matches!(x, ParseRepair::Delete(_))).count();
+            let shf = r.iter().filter(|x| matches!(x, ParseRepair::Shift(_))).count();
+            format!("{} inserts, {} deletes, {} shifts", ins, del, shf)
+        })
+        .collect::<Vec<_>>();
+    eprintln!("unit costs, n = {n}: {} error(s); repairs of the first error: {:?}", errs.len(), reported);
+    assert!(!reported.is_empty(), "no repairs found (time budget?)");
+    (errs.len(), reported)
+}
+
+// The search for these two takes longer than the 500ms recovery budget in an unoptimised build:
+// run them with --release (see run.txt).
+#[test]
+#[cfg_attr(debug_assertions, ignore)]
+fn unit_costs_control_below_the_cap() {
+    // 70 groups: both repairs end below in_laidx + 250; both are reported. Passes.
+    let (nerrs, reported) = run_unit(70);
+    assert_eq!(nerrs, 1);
+    assert!(reported.iter().any(|r| r.starts_with("0 inserts, 70 deletes")), "{:?}", reported);
+    assert!(reported.iter().any(|r| r.starts_with("70 inserts, 0 deletes")), "{:?}", reported);
+}
+
+#[test]
+#[cfg_attr(debug_assertions, ignore)]
+fn unit_costs_both_complete_repairs_are_reported() {
+    let (nerrs, reported) = run_unit(84);
+    assert_eq!(nerrs, 1);
+    assert!(
+        reported.iter().any(|r| r.starts_with("0 inserts, 84 deletes")),
+        "deleting the 90 'x's is not reported: {:?}",
+        reported
+    );
+    assert!(
+        reported.iter().any(|r| r.starts_with("84 inserts, 0 deletes")),
+        "inserting 90 'k's (same cost 90, input then accepted just as well) is not reported: {:?}",
+        reported
+    );
+}
